@@ -19,7 +19,10 @@ type watchEntry struct {
 	name string
 }
 
-type watchSlot struct{ cur atomic.Pointer[watchEntry] }
+type watchSlot struct {
+	cur atomic.Pointer[watchEntry]
+	n   uint32
+}
 
 var (
 	watchMu    sync.Mutex
@@ -40,6 +43,11 @@ func newWatchSlot() *watchSlot {
 	return s
 }
 
+// begin arms the monitor for one case. For cheap enumerated cases (light) it
+// is only re-armed every 64th case: a hang is still detected, because the
+// stale entry of an earlier case then ages past the limit; the replay of the
+// reported case is confirmed solo by the driver, and the enumerator's position
+// is close to it.
 func (s *watchSlot) begin(col *Collector, name string, cs interface{}) {
 	s.cur.Store(&watchEntry{t: time.Now(), cs: cs, col: col, name: name})
 }
